@@ -142,19 +142,19 @@ func loadKnown(path string) ([]KnownFinding, error) {
 // ---- finishing a run ------------------------------------------------------
 
 type runInfo struct {
-	Tier      string
-	Seed      int
-	WallS     float64
-	Evidence  string
-	ReplayDir string
-	Explain   string
-	Trusted   []string
-	Assume    []string
-	Configs   []string
-	Packages  int
-	Extra     map[string]interface{}
+	Tier       string
+	Seed       int
+	WallS      float64
+	Evidence   string
+	ReplayDir  string
+	Explain    string
+	Trusted    []string
+	Assume     []string
+	Configs    []string
+	Packages   int
+	Extra      map[string]interface{}
 	CheckerCmd string
-	Only      string
+	Only       string
 }
 
 // Finish prints the report, writes replay files and evidence, and returns the
